@@ -163,8 +163,20 @@ CLAIMS = {
         note="NOT decided: that publish-then-signal against re-arm-then-scan excludes a lost wake-up for every interleaving "
              "(a schedule quantifier: hand argument only); the tv computation inside main's loop is not isolated.",
         design_ref="DESIGN.md section 5 C16, section 10"),
+    "C14": dict(
+        text="Proof (CBMC) on the unmodified qmail-send.c: injectbounce() (every stat/open/read/queue failure; senders <= 15 "
+             "bytes, bounded): after removing a trailing -@[] the sender #@[] means discard (nothing queued, record removed), "
+             "the empty sender means one double bounce F=#@[] T=doublebounceto, anything else one bounce F=<> T=sender; the "
+             "record is unlinked only after qmail_close reported the notice queued; read errors fail the submission. "
+             "del_dochan: every permanent failure (and only those) is recorded with addbounce before the recipient is "
+             "marked. addbounce() (bounded: recipient <= 4, report <= 8 bytes, all byte values): '<rcpt>:' line without line "
+             "break, nothing but line ends after a blank line inside an entry (report text cannot forge a recipient "
+             "paragraph), every byte written exactly once despite short writes and failures.",
+        note="Bounce loops being impossible follows from the three sender cases by a two-line hand corollary; stripvdomprepend "
+             "(virtual-domain prefix removal) and the text of the notice are not covered; qmail_close's contract is C07.",
+        design_ref="DESIGN.md section 5 C14"),
 }
 
 NOT_APPLICABLE = {p: PENDING for p in
-                  ["C10", "C13", "C14",
+                  ["C10", "C13",
                    "C17", "C20"]}
